@@ -366,18 +366,26 @@ pub fn run(tier: Tier) -> ! {
     }
     prepare_models();
     // predict
-    let pool = ["", "a", "あい", "a b", "a/b", "a\\b", "ab12", "a\0b", "火星猫だ", "abab", "e\u{301}ab", "｢あ｣､a｡", "｢あい｣｡ｶ－", "ラ－、ア―ア─.–ー、", "abab ab12 あいa/b\\ 火星猫だ abab ab12 あいa/b 火星猫だ abab ab12 あいa 12ab ａｂ１２ abab ab12 あいa/b 火星猫だ"];
+    let pool = ["", "a", "あい", "a b", "a/b", "a\\b", "ab12", "a\0b", "火星猫だ", "abab", "e\u{301}ab", "｢あ｣､a｡", "｢あい｣｡ｶ－", "ラ－、ア―ア─.–ー、", " ", "   ", "abab ab12 あいa/b\\ 火星猫だ abab ab12 あいa/b 火星猫だ abab ab12 あいa 12ab ａｂ１２ abab ab12 あいa/b 火星猫だ"];
     let mut streams: Vec<String> = vec![];
     let maxl = tier.pick(2, 3);
     for n in 1..=maxl {
         for v in crate::gen::vectors(pool.len() as u8, n) {
             // 3-line streams: sub-sample to those that contain a rejected or tagged-token line (the stale-state cases)
-            if n == 3 && !(v.contains(&0) || v.contains(&7)) || n == 3 && v.contains(&13) {
+            if n == 3 && !(v.contains(&0) || v.contains(&7)) || n == 3 && (v.contains(&13) || v.contains(&14) || v.contains(&15)) {
                 continue;
             }
             let body: Vec<&str> = v.iter().map(|&i| pool[i as usize]).collect();
             streams.push(body.join("\n") + "\n");
             streams.push(body.join("\n"));
+        }
+    }
+    // very long lines (4000 and 20000 characters) between short and rejected ones
+    for unit in tier.pick(vec!["ab12 あいa/b\\ 火星猫だ", "１２ａｂ－"], vec!["ab12 あいa/b\\ 火星猫だ", "a", "あ ", "１２ａｂ－"]) {
+        for total in tier.pick(vec![3000usize], vec![4000usize, 20000]) {
+            let long: String = unit.chars().cycle().take(total).collect();
+            streams.push(format!("{long}\n"));
+            streams.push(format!("a\n{long}\n\nab\n{long}"));
         }
     }
     let wss: Vec<Vec<String>> = vec![vec![], vec!["D".into()], vec!["G".into()], vec!["D".into(), "G".into()], vec!["R".into()], vec!["H".into(), "R".into()], vec!["T".into()], vec!["O".into()], vec!["K".into(), "O".into(), "T".into()]];
@@ -445,7 +453,7 @@ pub fn run(tier: Tier) -> ! {
     chk.assume("layout: tokenised line, newline, then the score block, then the tag-score block (the layout of the default mode and of the README); for a rejected line only the empty line is fixed, an empty block per requested block kind is tolerated");
     chk.assume("--tag-scores without --predict-tags is meaningless: a clean refusal (non-zero exit, empty stdout) or normal output without tag blocks is accepted, a panic is not");
     chk.finish(
-        "predict: every stream of 1..2 (thorough: + the 3-line streams containing a rejected line) lines from a 15-line pool (empty, the four dash look-alikes whose character type changes under normalisation next to Other and Katakana characters, NUL, spaces, slashes, backslashes, half-width ASCII, half-width CJK punctuation whose full-width form has the same byte length, combining mark, multi-byte, one 100-character line) with and without final newline x every subset of {--no-norm, --predict-tags, --scores, --tag-scores} x 9 wsconst settings (none, D, G, D G, R, H R, T, O, K O T) x 3 models (without tags, with tags, with tags and a bias that splits almost everywhere so that filters really merge tokens) (quick: a rotating third of the stream x flag-set product); evaluate: every stream of 1..2/1..3 reference lines (one-character sentences and lines whose first / last token is or ends in white space - an escaped space, U+3000, a tab - included) x {--no-norm} x {--predict-tags} x {char, word} x 9 wsconst settings x 3 models (quick: a quarter); stdout and exit status of the real binaries vs the library pipeline run in-process; non-trivial = blocks requested or more than one line",
+        "predict: every stream of 1..2 (thorough: + the 3-line streams containing a rejected line) lines from a 17-line pool (empty, blank lines of one and three spaces, the four dash look-alikes whose character type changes under normalisation next to Other and Katakana characters, NUL, spaces, slashes, backslashes, half-width ASCII, half-width CJK punctuation whose full-width form has the same byte length, combining mark, multi-byte, one 100-character line; plus streams with 3000- (thorough: 4000- and 20000-) character lines) with and without final newline x every subset of {--no-norm, --predict-tags, --scores, --tag-scores} x 9 wsconst settings (none, D, G, D G, R, H R, T, O, K O T) x 3 models (without tags, with tags, with tags and a bias that splits almost everywhere so that filters really merge tokens) (quick: a rotating third of the stream x flag-set product); evaluate: every stream of 1..2/1..3 reference lines (one-character sentences and lines whose first / last token is or ends in white space - an escaped space, U+3000, a tab - included) x {--no-norm} x {--predict-tags} x {char, word} x 9 wsconst settings x 3 models (quick: a quarter); stdout and exit status of the real binaries vs the library pipeline run in-process; non-trivial = blocks requested or more than one line",
         true,
         &replay,
     )
